@@ -101,6 +101,8 @@ func (w *World) postValidate(n *Node, snap *validateSnap, s consensus.State, b t
 	}
 	w.stats.Inc("probe.c09.validate")
 	ctx := fmt.Sprintf("block %s (child of height %d)", short(b.ID()), int64(s.Index.Height))
+	// (called directly, without validation's range checks in front: a panic here says nothing)
+	_ = guard(func() { w.checkPure(s, b.Transactions, b.V2Transactions(), ctx) })
 	if !bytes.Equal(encodeState(s), snap.state) || !bytes.Equal(fullBlockBytes(b), snap.block) || !bytes.Equal(suppBytes(bs), snap.supp) {
 		w.violate("C09", "validate-mutates-input", "ValidateBlock modified its state, block or supplement: "+ctx)
 		return
@@ -511,4 +513,131 @@ func revertCulprit(ru consensus.RevertUpdate) string {
 		}
 	}
 	return out
+}
+
+// ---- C09: identifiers, signature hashes and addresses are functions of
+// their arguments (the hashers behind them are pooled and reused) ----
+
+func encAny(o types.EncoderTo) []byte {
+	var buf bytes.Buffer
+	e := types.NewEncoder(&buf)
+	o.EncodeTo(e)
+	e.Flush()
+	return buf.Bytes()
+}
+
+// hashNoise uses the pooled hashers for something unrelated.
+func (w *World) hashNoise(s consensus.State) {
+	w.noiseCtr++
+	_ = s.ContractSigHash(types.V2FileContract{Filesize: w.noiseCtr})
+	_ = s.AttestationSigHash(types.Attestation{Key: "noise", Value: []byte{byte(w.noiseCtr)}})
+	nt := types.Transaction{ArbitraryData: [][]byte{{byte(w.noiseCtr), 1, 2}}}
+	_ = nt.ID()
+}
+
+func (w *World) checkPure(s consensus.State, v1 []types.Transaction, v2 []types.V2Transaction, ctx string) {
+	w.stats.Inc("probe.c09.pure")
+	bad := func(fn string) {
+		w.violate("C09", "hash-not-a-function", fmt.Sprintf("%s: %s gives different results for the same arguments when other hashing happens in between", ctx, fn))
+	}
+	for i := range v1 {
+		t := v1[i]
+		before := encV1(t)
+		id1 := t.ID()
+		w.hashNoise(s)
+		if t.ID() != id1 {
+			bad("Transaction.ID")
+		}
+		// a partial signature hash over the first element of every non-empty list
+		var cf types.CoveredFields
+		pick0 := func(n int) []uint64 {
+			if n > 0 {
+				return []uint64{0}
+			}
+			return nil
+		}
+		cf.SiacoinInputs, cf.SiacoinOutputs, cf.FileContracts = pick0(len(t.SiacoinInputs)), pick0(len(t.SiacoinOutputs)), pick0(len(t.FileContracts))
+		cf.FileContractRevisions, cf.StorageProofs, cf.SiafundInputs = pick0(len(t.FileContractRevisions)), pick0(len(t.StorageProofs)), pick0(len(t.SiafundInputs))
+		cf.SiafundOutputs, cf.MinerFees, cf.ArbitraryData = pick0(len(t.SiafundOutputs)), pick0(len(t.MinerFees)), pick0(len(t.ArbitraryData))
+		p1 := s.PartialSigHash(t, cf)
+		w.hashNoise(s)
+		if s.PartialSigHash(t, cf) != p1 {
+			bad("State.PartialSigHash")
+		}
+		for _, sig := range t.Signatures {
+			if sig.CoveredFields.WholeTransaction {
+				ok := true
+				for _, j := range sig.CoveredFields.Signatures {
+					ok = ok && j < uint64(len(t.Signatures))
+				}
+				if !ok {
+					continue
+				}
+				h1 := s.WholeSigHash(t, sig.ParentID, sig.PublicKeyIndex, sig.Timelock, sig.CoveredFields.Signatures)
+				w.hashNoise(s)
+				if s.WholeSigHash(t, sig.ParentID, sig.PublicKeyIndex, sig.Timelock, sig.CoveredFields.Signatures) != h1 {
+					bad("State.WholeSigHash")
+				}
+			}
+		}
+		for _, in := range t.SiacoinInputs {
+			a1 := in.UnlockConditions.UnlockHash()
+			w.hashNoise(s)
+			if in.UnlockConditions.UnlockHash() != a1 {
+				bad("UnlockConditions.UnlockHash")
+			}
+		}
+		if !bytes.Equal(encV1(t), before) {
+			w.violate("C09", "hash-mutates-input", ctx+": computing IDs / signature hashes modified a v1 transaction")
+		}
+	}
+	for i := range v2 {
+		t := v2[i]
+		before := encAny(t)
+		id1, h1 := t.ID(), s.InputSigHash(t)
+		w.hashNoise(s)
+		if t.ID() != id1 {
+			bad("V2Transaction.ID")
+		}
+		if s.InputSigHash(t) != h1 {
+			bad("State.InputSigHash")
+		}
+		pol := func(p types.SpendPolicy, where string) {
+			pb := encAny(p)
+			a1 := p.Address()
+			w.hashNoise(s)
+			if p.Address() != a1 {
+				bad("SpendPolicy.Address")
+			}
+			_ = p.String()
+			if !bytes.Equal(encAny(p), pb) {
+				w.violate("C09", "address-mutates-policy", fmt.Sprintf("%s: SpendPolicy.Address / String modified the policy of %s", ctx, where))
+			}
+		}
+		for j := range t.SiacoinInputs {
+			pol(t.SiacoinInputs[j].SatisfiedPolicy.Policy, fmt.Sprintf("siacoin input %d", j))
+		}
+		for j := range t.SiafundInputs {
+			pol(t.SiafundInputs[j].SatisfiedPolicy.Policy, fmt.Sprintf("siafund input %d", j))
+		}
+		for _, fc := range t.FileContracts {
+			c1 := s.ContractSigHash(fc)
+			w.hashNoise(s)
+			if s.ContractSigHash(fc) != c1 {
+				bad("State.ContractSigHash")
+			}
+		}
+		for _, r := range t.FileContractResolutions {
+			if ren, ok := r.Resolution.(*types.V2FileContractRenewal); ok {
+				c1 := s.RenewalSigHash(*ren)
+				w.hashNoise(s)
+				if s.RenewalSigHash(*ren) != c1 {
+					bad("State.RenewalSigHash")
+				}
+			}
+		}
+		if !bytes.Equal(encAny(t), before) {
+			w.violate("C09", "hash-mutates-input", ctx+": computing IDs / signature hashes / addresses modified a v2 transaction")
+		}
+	}
 }
